@@ -17,42 +17,37 @@
    sibling list, parent = enclosing tree, children = first child), no live cell lies
    outside the forest, and every id handed out so far is in the forest exactly once
    or in the free list exactly once.  [wf h] is [exists s, inv h s].
-   [proved o]: the operations whose refinement is proved (NodeHistory.v): new,
-   gnode_after/before, gnode_add/node_add, gnode_insert/node_insert at every
-   position code, unlink, node_move (merge of a child list or a local list into a
-   list with overlapping names, recursively), node/list/tree clone, clear, destroy,
-   relink, traversal and the final clean-up (unlink + destroy of every node without
-   parent).
-   NOT in [proved]: gnode_swap and gnode_switch (exchange of children / of places;
-   not among the operations the property names); for those the model is tied to the
-   specification and to the code by the differential run only (that is why the
-   history theorems are _partial). *)
+   Every operation of the history language is proved to refine its forest
+   operation (NodeHistory.step_all): new, gnode_after/before, gnode_add/node_add,
+   gnode_insert/node_insert at every position code, unlink, node_move (merge of a
+   child list or a local list into a list with overlapping names, recursively),
+   node/list/tree clone, clear, destroy, gnode_swap, gnode_switch, gnode_relink,
+   traversal and the final clean-up (unlink + destroy of every node without parent). *)
 From MptV Require Import C14.NodeModel C14.NodeSpec C14.NodeRep C14.NodeInv C14.NodeRefine
   C14.NodeFree C14.NodeClone C14.NodeHistory C14.NodeCheck C14.NodeEnd.
 From Coq Require Import List ZArith.
 Import ListNotations.
 
-(* One operation, any represented state (any number of nodes, any depth, any
-   position, any names): the pointer model does not fault, returns what the forest
-   operation returns, and its links afterwards are exactly those of the resulting
-   forest — so link consistency, acyclicity and single reachability are preserved. *)
+(* One operation (ANY operation of the history language), any represented state
+   (any number of nodes, any depth, any position, any names): the pointer model does
+   not fault, returns what the forest operation returns, and its links afterwards
+   are exactly those of the resulting forest — so link consistency, acyclicity and
+   single reachability are preserved. *)
 Theorem C14_step_refines_forest :
-  forall o, proved o -> forall h s, inv h s ->
+  forall o h s, inv h s ->
     exists h', mstep h o = ROk (h', snd (sstep s o)) /\ inv h' (fst (sstep s o)).
-Proof. exact step_proved. Qed.
+Proof. exact step_all. Qed.
 
-(* Any history of proved operations: no step faults, every result equals the
-   specification's, and after EVERY step the heap represents the specification's
-   forest.
-   Full statement (not proved): the same without [Forall proved ops]. *)
-Theorem C14_history_refines_forest_partial :
-  forall ops h s, inv h s -> Forall proved ops -> run_rel (mrun h ops) (srun s ops).
+(* ANY history: no step faults, every result equals the specification's, and after
+   EVERY step the heap represents the specification's forest. *)
+Theorem C14_history_refines_forest :
+  forall ops h s, inv h s -> run_rel (mrun h ops) (srun s ops).
 Proof. exact history_refines. Qed.
 
-(* Well-formedness (some forest is represented) is preserved and the step succeeds.
-   Full statement (not proved): for every operation of the history language. *)
-Theorem C14_wf_preserved_partial :
-  forall o h, proved o -> wf h -> exists h' out, mstep h o = ROk (h', out) /\ wf h'.
+(* Well-formedness (some forest is represented) is preserved by every operation and
+   the step succeeds. *)
+Theorem C14_wf_preserved :
+  forall o h, wf h -> exists h' out, mstep h o = ROk (h', out) /\ wf h'.
 Proof. exact wf_step. Qed.
 
 (* "Represents a forest" IS link consistency: every heap satisfying the invariant
@@ -110,7 +105,7 @@ Example C14_inv_empty : inv empty_heap empty_sstate.
 Proof. exact inv_empty. Qed.
 
 (* a history with inserts by position and by name, unlink, clone of a tree of depth
-   3, clear and destroy consists of proved operations only ... *)
+   3, clear, destroy, traversal and clean-up ... *)
 Definition ex_ops : list op :=
   [ONew 1 0; ONew 2 1; ONew 1 2; ONew 3 0; ONew 2 0;
    OIns false 0 0%Z 1; OIns true 0 (-1)%Z 2; OIns false 1 1%Z 3; OAdd true 1 0%Z 4;
@@ -122,11 +117,6 @@ Definition ex_merge : list op :=
   [ONew 3 0; ONew 1 0; ONew 1 0; ONew 2 0; ONew 2 0; OIns false 0 0%Z 1; OIns false 1 0%Z 2; OIns false 1 0%Z 3;
    OIns false 0 0%Z 4; ONew 3 0; ONew 1 0; ONew 2 0; OIns false 5 0%Z 6; OIns false 6 0%Z 7; OMove 0 6; OClear 0; OEnd].
 
-Example C14_ex_proved : Forall proved ex_ops.
-Proof. repeat constructor. Qed.
-
-Example C14_ex_merge_proved : Forall proved ex_merge.
-Proof. repeat constructor. Qed.
 
 Example C14_ex_merge_result :
   nth 14 (map fst (srun empty_sstate ex_merge)) OutX = OutZ 2%Z /\
@@ -135,7 +125,7 @@ Example C14_ex_merge_result :
   [[T 0 3 0 [T 1 1 0 [T 3 2 0 []]]]; [T 5 3 0 [T 6 1 0 [T 7 2 0 []; T 2 1 0 []]; T 4 2 0 []]]].
 Proof. vm_compute. split; reflexivity. Qed.
 
-(* ... so the theorem applies to it; its forests are not trivial: *)
+(* ... its forests are not trivial: *)
 Example C14_ex_final_forest :
   lists (snd (nth 14 (srun empty_sstate ex_ops) (OutX, empty_sstate))) =
   [[T 0 1 0 [T 4 2 0 []; T 2 1 2 []; T 1 2 1 [T 3 3 0 []]]]].
@@ -167,6 +157,16 @@ Proof.
   repeat (constructor; [cbn; intuition discriminate|]). constructor.
 Qed.
 
+(* exchange of child lists and of places (also of adjacent siblings) *)
+Example C14_ex_swap_switch :
+  let ops := [ONew 1 0; ONew 2 0; ONew 3 0; ONew 1 1; ONew 2 1; OIns false 0 0%Z 1; OIns false 0 0%Z 2;
+              OIns false 1 0%Z 3; OIns false 2 0%Z 4; OSwap 1 2; OSwitch 1 2; OSwitch 3 0] in
+  map fst (skipn 9 (srun empty_sstate ops)) = [OutP None; OutP None; OutX] /\
+  filter (fun l => match l with [] => false | _ => true end)
+         (lists (snd (last (srun empty_sstate ops) (OutX, empty_sstate)))) =
+  [[T 0 1 0 [T 2 3 0 [T 3 1 1 []]; T 1 2 0 [T 4 2 1 []]]]].
+Proof. vm_compute. split; reflexivity. Qed.
+
 (* a refused destroy (node still linked) and a guard of the history language *)
 Example C14_ex_refusals :
   map fst (srun empty_sstate [ONew 1 0; ONew 2 0; OIns false 0 0%Z 1; ODestroy 1; OAfter (Some 1) (Some 0)])
@@ -174,8 +174,8 @@ Example C14_ex_refusals :
 Proof. vm_compute. reflexivity. Qed.
 
 Print Assumptions C14_step_refines_forest.
-Print Assumptions C14_history_refines_forest_partial.
-Print Assumptions C14_wf_preserved_partial.
+Print Assumptions C14_history_refines_forest.
+Print Assumptions C14_wf_preserved.
 Print Assumptions C14_wf_links.
 Print Assumptions C14_released_once.
 Print Assumptions C14_cleanup_releases_all.
